@@ -260,6 +260,41 @@ def connJudge (f : List String) (out : String) : String :=
     | some s, some v => Casket.TLSSpec.crossVerdict c.cfgs (s, v)
     | _, _ => "bad:unparsable:" ++ out
 
+/- c06.cross  aesni  sites  cfgs  snihex  hosthex  pathhex
+     c06.connect with SNI and Host as separate fields; out as in c06.connect -/
+structure CrossCase where
+  aesni : Bool
+  sites : List Casket.VHost.Site
+  cfgs : List Cfg
+  sni : Bytes
+  host : Bytes
+  path : Bytes
+
+def parseCross : List String → Option CrossCase
+  | [a, ss, cs, n, h, p] => do
+    let c ← parseConn [a, ss, cs, n, p]
+    pure { aesni := c.aesni, sites := c.sites, cfgs := c.cfgs, sni := c.name, host := ← bytes h, path := c.path }
+  | _ => none
+
+def crossModel (f : List String) : String :=
+  match parseCross f with
+  | none => "bad-case"
+  | some c =>
+    let o := connectSH c.aesni c.sites c.cfgs c.sni c.host c.path
+    showSel o.1 ++ "\t||\t" ++ showServed o.2
+
+def crossJudge (f : List String) (out : String) : String :=
+  match parseCross f with
+  | none => "bad:unparsable:case"
+  | some c =>
+    let (a, b) := splitBars (out.splitOn "\t") []
+    let sel : Option Obs := match a with
+      | ["cfg", i] => i.toNat?.map (fun i => .cfg i dummyBuilt)
+      | _ => parseObs ("\t".intercalate a)
+    match sel, parseServed ("\t".intercalate b) with
+    | some s, some v => Casket.TLSSpec.crossSHVerdict c.cfgs c.sni ⟨c.host, c.path, 1⟩ (s, v)
+    | _, _ => "bad:unparsable:" ++ out
+
 /- c06.setup  aesni  block
      block = ';' list of lines  <namehex>|<arghex>,<arghex>,…   (the body of `tls self_signed { … }`)
      out   = err:<argcount|badprotocol|badcipher|badcurve|mingtmax|unknown>
@@ -382,6 +417,7 @@ def streams : List Driver.Stream := [
   { name := "c06.setup", model := setupModel, judge := setupJudge },
   { name := "c06.listener", model := listenerModel, judge := listenerJudge },
   { name := "c06.connect", model := connModel, judge := connJudge },
+  { name := "c06.cross", model := crossModel, judge := crossJudge },
   { name := "c06.build", model := buildModel, judge := buildJudge },
   { name := "c06.handshake", model := hsModel, judge := hsJudge },
   { name := "c06.snihost", model := sniModel, judge := sniJudge },
